@@ -125,7 +125,7 @@ def handlers : List (String × Handler) := [
       | .error _ => 1
     let mode ← getMode j nch
     let src : Vol (List Int) := { geom := g, vox := voxOf arr.toArray g.shape nch }
-    let r := matchGeometry src t tol mode
+    let r := matchBySource src t tol mode     -- the order of operations regenerated from the source
     pure (exceptToJson (fun (v : Vol (List Int)) => Json.mkObj [
       ("shape", intsToJson [v.geom.shape 0, v.geom.shape 1, v.geom.shape 2]),
       ("affine", geomAffineJson v.geom),
@@ -143,11 +143,11 @@ def handlers : List (String × Handler) := [
     let r := getitemAxis ⟨← getInt j "start", ← getOptInt j "stop", ← getInt j "step"⟩ (← getInt j "n")
     pure (exceptToJson (fun (x : Int × Int × Int) => intsToJson [x.1, x.2.1, x.2.2]) r)),
   ("v2v", fun j => do
-    let r := v2v (← getAff j "from") (← getAff j "to") (← tri (← getIntList j "shape")) (← getBool j "round")
+    let r := v2vBySource (← getAff j "from") (← getAff j "to") (← tri (← getIntList j "shape")) (← getBool j "round")
       (← getBool j "check") (← getPts j "pts")
     pure (exceptToJson ptsJson r)),
   ("refToIdx", fun j => do
-    let r := refToIdx (← getAff j "aff") (← tri (← getIntList j "shape")) (← getBool j "round")
+    let r := refToIdxBySource (← getAff j "aff") (← tri (← getIntList j "shape")) (← getBool j "round")
       (← getBool j "check") (← getPts j "pts")
     pure (exceptToJson ptsJson r)),
   ("roundHalfEven", fun j => do pure (okJson ((roundHalfEven (← getRat j "x") : Int) : Json)))
